@@ -148,6 +148,12 @@ func (in *inst) boot(genesis *pos.Validators) {
 				apply = nil
 				rec.noapply = true
 			}
+			if in.noApplyMod%2 == 1 && rec.noapply && in.r.seals[[2]uint64{rec.epoch, rec.frame}] == nil {
+				// an application that ignores this block altogether returns empty callbacks
+				in.blocks = append(in.blocks, rec)
+				in.allBlocks = append(in.allBlocks, rec)
+				return lachesis.BlockCallbacks{}
+			}
 			if in.noApplyMod > 1 && rec.frame%in.noApplyMod == 1 && in.r.seals[[2]uint64{rec.epoch, rec.frame}] == nil {
 				// an application with nothing to decide at the end of this block passes no EndBlock callback
 				bi, ai := len(in.blocks), len(in.allBlocks)
@@ -601,17 +607,33 @@ func genConsCase(r *Rand, tier string, w *bufio.Writer) {
 	epochs := 1 + r.Intn(4)
 	_ = epochs
 	sealFrame := map[int]int{}
+	type vset struct{ ids, ws []uint64 }
+	epochSets := map[int]vset{1: {ids, ws}}
 	for e := 1; e < epochs; e++ {
 		sealFrame[e] = 1 + r.Intn(6)
-		// mutated or unchanged validator set
-		nws := make([]uint64, nv)
+		// mutated or unchanged validator set; outside the fixed-shape styles validators also join and leave
+		prev := epochSets[e]
+		nids := append([]uint64{}, prev.ids...)
+		nws := make([]uint64, len(nids))
 		for i := range nws {
-			nws[i] = ws[i]
+			nws[i] = prev.ws[i]
 			if r.Chance(1, 2) {
-				nws[i] = ws[i]*uint64(500+r.Intn(500))/1000 + 1
+				nws[i] = prev.ws[i]*uint64(500+r.Intn(500))/1000 + 1
 			}
 		}
-		emit("seal %d %d %s", e, sealFrame[e], valsStr(ids, nws))
+		if !slowQuorum && !twoCheaters {
+			if len(nids) > 1 && r.Chance(1, 4) {
+				k := r.Intn(len(nids))
+				nids = append(nids[:k], nids[k+1:]...)
+				nws = append(nws[:k], nws[k+1:]...)
+			}
+			for len(nids) < 9 && r.Chance(1, 3) {
+				nids = append(nids, uint64(30+3*e+len(nids)))
+				nws = append(nws, nws[r.Intn(len(nws))])
+			}
+		}
+		epochSets[e+1] = vset{nids, nws}
+		emit("seal %d %d %s", e, sealFrame[e], valsStr(nids, nws))
 	}
 	specN := uint64(0)
 	specAge := 0
@@ -935,6 +957,48 @@ func genConsCase(r *Rand, tier string, w *bufio.Writer) {
 			all = nil
 			heads = map[uint64][]head{}
 			visibleHider, hideTo, catchUp = nil, -1, false
+			if ns, ok := epochSets[ep]; ok {
+				// the validator set itself changed: cheaters stay cheaters while they hold less than one third
+				neededID := uint64(0)
+				if needed >= 0 {
+					neededID = ids[needed]
+				}
+				ids, ws, nv = ns.ids, ns.ws, len(ns.ids)
+				total = 0
+				for _, x := range ws {
+					total += x
+				}
+				var cw uint64
+				nc := map[uint64]bool{}
+				needed = -1
+				for i, id := range ids {
+					if cheater[id] && 3*(cw+ws[i]) < total {
+						nc[id] = true
+						cw += ws[i]
+					}
+					if id == neededID {
+						needed = i
+					}
+				}
+				cheater = nc
+				if slowN >= nv {
+					slowN = nv - 1
+				}
+				present := func(x uint64) bool {
+					for _, id := range ids {
+						if id == x {
+							return true
+						}
+					}
+					return false
+				}
+				if !present(lagger) {
+					lagger = 0
+				}
+				if !present(hider) {
+					hider = 0
+				}
+			}
 			if r.Chance(1, 2) {
 				for k := 1; k < ninst; k++ {
 					flush(k, 1<<30)
